@@ -846,9 +846,12 @@ func (client *client) internalClose() {
 			client.server.hooks.OnClosed(context.Background(), client, client.err)
 		}
 		verifYield("close.before_unregister")
-		client.unregister(client)
-		verifYield("close.before_stats")
+		// Book the end of the connection first: unregister may end the session (inactive sessions - 1) or make
+		// it resumable by the next connection (inactive sessions - 1 as well). Done the other way round the
+		// gauge of inactive sessions went through "-1", i.e. 18446744073709551615, in between.
 		client.server.statsManager.clientDisconnected(client.opts.ClientID)
+		verifYield("close.before_stats")
+		client.unregister(client)
 	}
 	putBufioReader(client.bufr)
 	putBufioWriter(client.bufw)
